@@ -7,8 +7,11 @@
  *
  * Input lines (after `case <n>`):
  *   cfg <nclients> <seed|choices|explicit> <seed> <stay_pct> <spurious_permille>
- *   prog <i> <op>...     ops: sn <t> | sf <t> <delta_ns> | c <t> | acq | rel | sl <ns>
- *                        (sf time = virtual start time + delta; sl = nanosleep in virtual time)
+ *   prog <i> <op>...     ops: sn <t> | sf <t> <delta_ns> | sa <t> <abs_ns> | c <t> | acq | rel | sl <ns>
+ *                        (sf time = virtual start time + delta; sa = absolute time, MAX / MAX-k allowed;
+ *                        sl = nanosleep in virtual time)
+ *   cb <t> <R|C> <op>    what task t's function does when invoked with RUN (R) / CANCELED (C):
+ *                        one of sn / sf / sa / c as above, executed on the invoking thread (re-entrant API use)
  *   choices <k>...       DS_CHOICES list      picks <p>...   DS_EXPLICIT list (several lines append)
  *   evs ...              (for the model driver; ignored here)
  *   run
@@ -35,7 +38,7 @@
 #define MAXLIST 65536
 #define START_NS 1000000000ULL
 
-enum opk { OP_SN, OP_SF, OP_C, OP_ACQ, OP_REL, OP_SL };
+enum opk { OP_NONE, OP_SN, OP_SF, OP_SA, OP_C, OP_ACQ, OP_REL, OP_SL };
 struct op {
     enum opk k;
     int t;
@@ -43,6 +46,7 @@ struct op {
 };
 
 static int s_nclients;
+static struct op s_cb[MAXT][2]; /* [task][0 = RUN, 1 = CANCELED] */
 static struct op s_prog[MAXC][MAXOPS];
 static int s_nops[MAXC];
 static char s_mode[16];
@@ -62,16 +66,57 @@ static struct {
 static int s_nlog;
 static int s_total_releases, s_returned, s_released, s_released_by;
 
+/* the allocator the scheduler is given: acquired memory is filled with 0xA5 and there is no mem_calloc, so that
+ * aws_mem_calloc is the library's acquire + memset emulation and anything the code leaves uninitialised is dirty */
+static void *s_dirty_acquire(struct aws_allocator *a, size_t size) {
+    (void)a;
+    void *p = aws_mem_acquire(hc_allocator(), size);
+    if (p) {
+        memset(p, 0xA5, size);
+    }
+    return p;
+}
+static void s_dirty_release(struct aws_allocator *a, void *p) {
+    (void)a;
+    aws_mem_release(hc_allocator(), p);
+}
+static struct aws_allocator s_dirty = {.mem_acquire = s_dirty_acquire, .mem_release = s_dirty_release};
+
+static void s_api(const struct op *o) {
+    switch (o->k) {
+        case OP_SN:
+            s_req[o->t] = 0;
+            aws_thread_scheduler_schedule_now(s_sched, &s_tasks[o->t]);
+            break;
+        case OP_SF:
+            s_req[o->t] = START_NS + o->v;
+            aws_thread_scheduler_schedule_future(s_sched, &s_tasks[o->t], START_NS + o->v);
+            break;
+        case OP_SA:
+            s_req[o->t] = o->v;
+            aws_thread_scheduler_schedule_future(s_sched, &s_tasks[o->t], o->v);
+            break;
+        case OP_C:
+            aws_thread_scheduler_cancel_task(s_sched, &s_tasks[o->t]);
+            break;
+        default:
+            break;
+    }
+}
+
 static void s_task_fn(struct aws_task *task, void *arg, enum aws_task_status status) {
     (void)arg;
+    int t = (int)(task - s_tasks);
     if (s_nlog < MAXLOG) {
-        s_log[s_nlog].task = (int)(task - s_tasks);
+        s_log[s_nlog].task = t;
         s_log[s_nlog].status = (int)status;
         s_log[s_nlog].thr = ds_self_ordinal();
         s_log[s_nlog].now = ds_now();
         s_log[s_nlog].after_release = s_released;
         s_nlog++;
     }
+    /* the task function re-enters the scheduler API on the invoking thread */
+    s_api(&s_cb[t][status == AWS_TASK_STATUS_RUN_READY ? 0 : 1]);
 }
 
 static void *s_client(void *arg) {
@@ -80,15 +125,10 @@ static void *s_client(void *arg) {
         struct op *o = &s_prog[me][i];
         switch (o->k) {
             case OP_SN:
-                s_req[o->t] = 0;
-                aws_thread_scheduler_schedule_now(s_sched, &s_tasks[o->t]);
-                break;
             case OP_SF:
-                s_req[o->t] = START_NS + o->v;
-                aws_thread_scheduler_schedule_future(s_sched, &s_tasks[o->t], START_NS + o->v);
-                break;
+            case OP_SA:
             case OP_C:
-                aws_thread_scheduler_cancel_task(s_sched, &s_tasks[o->t]);
+                s_api(o);
                 break;
             case OP_ACQ:
                 aws_thread_scheduler_acquire(s_sched);
@@ -100,6 +140,8 @@ static void *s_client(void *arg) {
                     s_released = 1;
                     s_released_by = me;
                 }
+                break;
+            case OP_NONE:
                 break;
             case OP_SL: {
                 struct timespec ts = {.tv_sec = (time_t)(o->v / 1000000000ULL), .tv_nsec = (long)(o->v % 1000000000ULL)};
@@ -113,7 +155,7 @@ static void *s_client(void *arg) {
 
 static void s_main(void *arg) {
     (void)arg;
-    s_sched = aws_thread_scheduler_new(hc_allocator(), aws_default_thread_options());
+    s_sched = aws_thread_scheduler_new(&s_dirty, aws_default_thread_options());
     HC_CHECK(s_sched != NULL);
     for (int i = 1; i < s_nclients; ++i) {
         aws_thread_scheduler_acquire(s_sched);
@@ -130,6 +172,7 @@ static void s_main(void *arg) {
 static void s_reset_case(void) {
     s_nclients = 0;
     memset(s_nops, 0, sizeof(s_nops));
+    memset(s_cb, 0, sizeof(s_cb));
     s_nlist = 0;
     strcpy(s_mode, "seed");
     s_seed = 1;
@@ -206,7 +249,7 @@ static int s_programs_ok(void) {
                 held++;
             } else if (o->k == OP_REL) {
                 held--;
-            } else if (o->k == OP_SN || o->k == OP_SF) {
+            } else if (o->k == OP_SN || o->k == OP_SF || o->k == OP_SA) {
                 if (seen[o->t]++) {
                     return 0;
                 }
@@ -214,6 +257,14 @@ static int s_programs_ok(void) {
         }
         if (held != 0) {
             return 0;
+        }
+    }
+    for (int t = 0; t < MAXT; ++t) {
+        for (int k = 0; k < 2; ++k) {
+            struct op *o = &s_cb[t][k];
+            if ((o->k == OP_SN || o->k == OP_SF || o->k == OP_SA) && seen[o->t]++) {
+                return 0;
+            }
         }
     }
     return 1;
@@ -322,6 +373,47 @@ static void s_run_case(void) {
     fflush(stdout);
 }
 
+/* parses one op starting at t[i]; returns the number of tokens consumed, 0 on error */
+static int s_parse_op(char **t, int i, int n, struct op *o) {
+    int used = 0;
+    memset(o, 0, sizeof(*o));
+    if (!strcmp(t[i], "sn") && i + 1 < n) {
+        o->k = OP_SN;
+        o->t = atoi(t[i + 1]);
+        used = 2;
+    } else if (!strcmp(t[i], "sf") && i + 2 < n) {
+        o->k = OP_SF;
+        o->t = atoi(t[i + 1]);
+        o->v = hc_parse_u64(t[i + 2]);
+        used = 3;
+    } else if (!strcmp(t[i], "sa") && i + 2 < n) {
+        o->k = OP_SA;
+        o->t = atoi(t[i + 1]);
+        o->v = hc_parse_u64(t[i + 2]);
+        used = 3;
+    } else if (!strcmp(t[i], "c") && i + 1 < n) {
+        o->k = OP_C;
+        o->t = atoi(t[i + 1]);
+        used = 2;
+    } else if (!strcmp(t[i], "acq")) {
+        o->k = OP_ACQ;
+        used = 1;
+    } else if (!strcmp(t[i], "rel")) {
+        o->k = OP_REL;
+        used = 1;
+    } else if (!strcmp(t[i], "sl") && i + 1 < n) {
+        o->k = OP_SL;
+        o->v = hc_parse_u64(t[i + 1]);
+        used = 2;
+    } else {
+        return 0;
+    }
+    if ((o->k == OP_SN || o->k == OP_SF || o->k == OP_SA || o->k == OP_C) && (o->t < 0 || o->t >= MAXT)) {
+        return 0;
+    }
+    return used;
+}
+
 static int s_parse_prog(char **t, int n) {
     int c = atoi(t[1]);
     if (c < 0 || c >= MAXC) {
@@ -332,39 +424,32 @@ static int s_parse_prog(char **t, int n) {
         if (k >= MAXOPS) {
             return 0;
         }
-        struct op *o = &s_prog[c][k];
-        if (!strcmp(t[i], "sn") && i + 1 < n) {
-            o->k = OP_SN;
-            o->t = atoi(t[i + 1]);
-            i += 2;
-        } else if (!strcmp(t[i], "sf") && i + 2 < n) {
-            o->k = OP_SF;
-            o->t = atoi(t[i + 1]);
-            o->v = hc_parse_u64(t[i + 2]);
-            i += 3;
-        } else if (!strcmp(t[i], "c") && i + 1 < n) {
-            o->k = OP_C;
-            o->t = atoi(t[i + 1]);
-            i += 2;
-        } else if (!strcmp(t[i], "acq")) {
-            o->k = OP_ACQ;
-            i += 1;
-        } else if (!strcmp(t[i], "rel")) {
-            o->k = OP_REL;
-            i += 1;
-        } else if (!strcmp(t[i], "sl") && i + 1 < n) {
-            o->k = OP_SL;
-            o->v = hc_parse_u64(t[i + 1]);
-            i += 2;
-        } else {
+        int used = s_parse_op(t, i, n, &s_prog[c][k]);
+        if (!used) {
             return 0;
         }
-        if ((o->k == OP_SN || o->k == OP_SF || o->k == OP_C) && (o->t < 0 || o->t >= MAXT)) {
-            return 0;
-        }
+        i += used;
         k++;
     }
     s_nops[c] = k;
+    return 1;
+}
+
+static int s_parse_cb(char **t, int n) {
+    if (n < 4) {
+        return 0;
+    }
+    int task = atoi(t[1]);
+    int k = !strcmp(t[2], "R") ? 0 : !strcmp(t[2], "C") ? 1 : -1;
+    if (task < 0 || task >= MAXT || k < 0) {
+        return 0;
+    }
+    struct op o;
+    int used = s_parse_op(t, 3, n, &o);
+    if (!used || 3 + used != n || !(o.k == OP_SN || o.k == OP_SF || o.k == OP_SA || o.k == OP_C)) {
+        return 0;
+    }
+    s_cb[task][k] = o;
     return 1;
 }
 
@@ -389,6 +474,10 @@ int main(void) {
             }
         } else if (!strcmp(t[0], "prog") && n >= 2) {
             if (!s_parse_prog(t, n)) {
+                printf("bad-op\n");
+            }
+        } else if (!strcmp(t[0], "cb")) {
+            if (!s_parse_cb(t, n)) {
                 printf("bad-op\n");
             }
         } else if ((!strcmp(t[0], "picks") || !strcmp(t[0], "choices"))) {
